@@ -23,6 +23,27 @@ Proof. exact emit_name_escaped. Qed.
 Theorem C02_converted_ident_chars : forall nc c name, ascii_ident name = true -> ascii_ident (convert nc c name) = true.
 Proof. exact convert_ident_chars. Qed.
 
+(* every name printed at a declaration site is a legal identifier token of the language definition (non-empty, not
+   starting with a digit, keywords only between back-quotes), naming conversion on or off, for every Python
+   identifier over [A-Za-z0-9_] *)
+Theorem C02_emitted_name_is_legal : forall nc c name,
+  is_ident name = true -> legal_ident spec_keywords (snd (emit_name nc c name)) = true.
+Proof. intros nc c name H. rewrite emit_name_escaped. now apply emitted_name_is_legal. Qed.
+
+(* names that the conversion would turn into a non-identifier (_1, __, _9_lives) are emitted as they are *)
+Theorem C02_unconvertible_names_kept : forall nc c name, keeps name = true -> convert nc c name = name.
+Proof. exact convert_kept. Qed.
+
+Example C02_kept_examples : keeps (K"_1") = true /\ keeps (K"__") = true /\ keeps (K"_9_lives") = true /\ keeps (K"_x1") = false.
+Proof. repeat split; reflexivity. Qed.
+
+(* the full statement ("every identifier is a legal Safe-DS identifier, whatever names the package contains") is false:
+   a Python identifier outside ASCII is printed as it is.  Witness: the UTF-8 bytes of a-umlaut (recorded finding
+   non_ascii_identifier). *)
+Theorem C02_every_identifier_legal_refuted :
+  exists name, legal_ident spec_keywords (snd (emit_name false false name)) = false.
+Proof. exists [Ascii.ascii_of_nat 195; Ascii.ascii_of_nat 164]. vm_compute. reflexivity. Qed.
+
 (* ---- lexical structure, against the scanner of Spec/Sds.v (written from the language definition) ---- *)
 
 (* fragments that are closed (from a clean code state back to a clean code state, same bracket depths, no error)
@@ -88,3 +109,6 @@ Print Assumptions C02_plain_string_unchanged.
 Print Assumptions C02_line_comment_closed.
 Print Assumptions C02_todo_messages_one_line.
 Print Assumptions C02_escape_sites.
+Print Assumptions C02_emitted_name_is_legal.
+Print Assumptions C02_unconvertible_names_kept.
+Print Assumptions C02_every_identifier_legal_refuted.
